@@ -11,6 +11,7 @@ from . import refmodel as rm
 IDENT = ["A", "B", "C", "D", "E", "F", "G", "H", "Feat1", "Feat2", "Core", "Opt", "Alt1", "Alt2",
          "Leaf", "Node", "X1", "Y2", "Zed", "Kernel", "Gui", "Net", "Db", "Log", "Cfg", "Io"]
 IDENT_LOWER = ["a", "b", "c", "x1", "y_2", "feat", "leaf_x", "some_name", "A_b", "Aa_1"]
+LINEBREAKISH = ["v\x0bt", "f\x0cf", "fs\x1cx", "nel\x85z", "ls\u2028z", "ps\u2029z"]
 QUOTE = ["a b", "c-d", "e+f", "x/y", "q?", "p:q", "m,n", "(r)", "[s]", "{t}", "u=v", "w&z",
          "a|b", "!n", "a<b", "x>y", "k*", "h#1", "per%", "tab\there", "two  sp", " lead", "trail ",
          "semi;c", "at@x", "ti~de", "ca^ret", "do$l", "back`t"]
@@ -41,20 +42,21 @@ NAME_CLASSES = {
     "dquote": DQUOTE, "dot": DOT, "newline": NEWLINE, "backslash": BACKSLASH,
     "keyword": KEYWORD, "astword": ASTWORD, "digit": DIGIT, "under": UNDER,
     "nonascii": NONASCII, "xmlhard": XMLHARD, "afm_word": AFM_WORD, "collide": COLLIDE,
+    "linebreakish": LINEBREAKISH,
 }
 
 # which name classes each fragment's quantifier admits
 FRAG_NAME_CLASSES = {
-    "uvl": ["ident", "ident_lower", "collide", "quote", "squote", "keyword", "astword", "digit", "under",
+    "uvl": ["ident", "ident_lower", "collide", "linebreakish", "quote", "squote", "keyword", "astword", "digit", "under",
             "nonascii", "backslash"],
-    "json": ["ident", "ident_lower", "collide", "quote", "squote", "dquote", "dot", "newline", "backslash",
+    "json": ["ident", "ident_lower", "collide", "linebreakish", "quote", "squote", "dquote", "dot", "newline", "backslash",
              "keyword", "astword", "digit", "under", "nonascii", "xmlhard"],
     "afm": ["afm_word"],
     "fide": ["ident", "ident_lower", "collide", "quote", "squote", "dquote", "dot", "backslash", "keyword",
              "astword", "digit", "under", "nonascii", "xmlhard"],
-    "glencoe": ["ident", "ident_lower", "collide", "quote", "squote", "dquote", "dot", "newline",
+    "glencoe": ["ident", "ident_lower", "collide", "linebreakish", "quote", "squote", "dquote", "dot", "newline",
                 "backslash", "keyword", "astword", "digit", "under", "nonascii", "xmlhard"],
-    "whole": ["ident", "ident_lower", "collide", "quote", "squote", "keyword", "astword", "digit", "under",
+    "whole": ["ident", "ident_lower", "collide", "linebreakish", "quote", "squote", "keyword", "astword", "digit", "under",
               "nonascii", "dot"],
     "plain": ["ident"],
 }
